@@ -250,10 +250,13 @@ class XEval:
         self.steps = 0
 
     # abstract ints: ("k", int) concrete representative | ("o", tag) unequal to all constants, with range flag
-    def run_validate(self, child, command, mtype) -> bool:
-        """True = accepted. child/command/mtype are abstract values."""
+    def run_validate(self, child, command, mtype, canonical: bool = True) -> bool:
+        """True = accepted. child/command/mtype are abstract integers; the mapping handed to the validators holds
+        their *text* ("raw": the abstract integer plus whether it is spelled canonically - ' 255', '0255', '+255'
+        are integers to int() but are not the string '255')."""
         schema = self.I.prog.cls(SCHEMA)
-        data = {"child_id": child, "command": command, "message_type": mtype, "node_id": ("k", 1), "ack": ("k", 0), "payload": ("s", "")}
+        raw = lambda v: ("raw", v, canonical)  # noqa: E731
+        data = {"child_id": raw(child), "command": raw(command), "message_type": raw(mtype), "node_id": raw(("k", 1)), "ack": raw(("k", 0)), "payload": ("s", "")}
         try:
             # ChildIdField._deserialize(value, attr, data) and CommandField._deserialize(value, attr, data)
             for fname in ("child_id", "command"):
@@ -323,7 +326,7 @@ class XEval:
             return v[1]
         if v[0] == "none":
             return False
-        if v[0] in ("self", "data", "proto", "set", "enumcls", "validator"):
+        if v[0] in ("self", "data", "proto", "set", "enumcls", "validator", "raw"):
             return True
         if v[0] == "k":
             return bool(v[1])
@@ -429,6 +432,14 @@ class XEval:
         raise AnalysisError(f"XFIELD-1: cannot lift {v!r}")
 
     def eq(self, a, b) -> bool:
+        if a[0] == "raw" or b[0] == "raw":
+            if a[0] != "raw":
+                a, b = b, a
+            if b[0] == "s":  # text of the field compared with a string constant
+                return bool(a[2]) and a[1][0] == "k" and str(a[1][1]) == b[1]
+            if b[0] == "raw":
+                return a[1] == b[1] and a[2] == b[2] and a[2]
+            return False  # a str never equals an int
         if a[0] == "k" and b[0] == "k":
             return a[1] == b[1]
         if a[0] == "o" or b[0] == "o":
@@ -442,7 +453,14 @@ class XEval:
         kwargs = {kw.arg: self.ev(kw.value, env, f) for kw in e.keywords if kw.arg}
         if isinstance(fn, ast.Name):
             if fn.id == "int" and len(args) == 1:
-                return args[0]
+                return args[0][1] if args[0][0] == "raw" else args[0]
+            if fn.id == "str" and len(args) == 1:
+                a0 = args[0]
+                if a0[0] == "k":
+                    return ("s", str(a0[1]))
+                if a0[0] in ("s", "raw"):
+                    return a0
+                raise AnalysisError(f"XFIELD-1: str() of {a0!r} not modelled")
             if fn.id in ("tuple", "list", "set", "frozenset") and len(args) == 1:
                 if args[0][0] == "enumcls":
                     return ("members", tuple((n, v) for v, n in I.folder.enum_canonical(args[0][1]).items()))
@@ -487,6 +505,8 @@ class XEval:
         raise AnalysisError(f"XFIELD-1: call `{norm(e)[:70]}` in {f.fq} not modelled")
 
     def apply_validator(self, rec, v):
+        if v[0] == "raw":
+            raise AnalysisError("XFIELD-1: a range/choice validator is applied to the unparsed text of a field")
         if rec["kind"] == "Range":
             lo, hi = rec.get("min"), rec.get("max")
             if v[0] == "o":
